@@ -268,6 +268,16 @@ int f(void) { return (long double)1 ? 1 : 2; }
 '''
 
 
+SYSHEADERS = ['assert.h', 'ctype.h', 'errno.h', 'fenv.h', 'float.h', 'inttypes.h', 'iso646.h', 'limits.h', 'locale.h', 'math.h', 'setjmp.h', 'signal.h', 'stdalign.h',
+              'stdarg.h', 'stdatomic.h', 'stdbool.h', 'stddef.h', 'stdint.h', 'stdio.h', 'stdlib.h', 'stdnoreturn.h', 'string.h', 'threads.h', 'time.h', 'uchar.h', 'wchar.h',
+              'wctype.h', 'complex.h', 'tgmath.h', 'unistd.h', 'fcntl.h', 'sys/stat.h', 'sys/types.h', 'sys/mman.h', 'pthread.h', 'dirent.h', 'termios.h', 'sys/socket.h',
+              'netinet/in.h', 'sys/wait.h', 'sys/time.h', 'sys/resource.h', 'sys/select.h', 'poll.h', 'regex.h', 'glob.h', 'getopt.h', 'libgen.h', 'strings.h', 'alloca.h',
+              'semaphore.h', 'sched.h', 'spawn.h', 'dlfcn.h', 'elf.h', 'endian.h', 'byteswap.h', 'search.h', 'sys/uio.h', 'sys/un.h', 'arpa/inet.h', 'netdb.h', 'pwd.h', 'grp.h',
+              'utime.h', 'sys/utsname.h', 'sys/ioctl.h', 'syslog.h', 'wordexp.h', 'fnmatch.h', 'ftw.h', 'iconv.h', 'langinfo.h', 'monetary.h', 'nl_types.h', 'ucontext.h',
+              'sys/epoll.h', 'sys/eventfd.h', 'sys/inotify.h', 'sys/prctl.h', 'sys/ptrace.h', 'sys/sysinfo.h', 'sys/timerfd.h', 'linux/limits.h', 'malloc.h', 'execinfo.h',
+              'error.h', 'err.h', 'obstack.h', 'argp.h', 'mntent.h', 'paths.h', 'printf.h', 'link.h', 'ifaddrs.h', 'net/if.h', 'sys/statvfs.h', 'sys/sem.h', 'sys/shm.h', 'sys/msg.h']
+
+
 def snippet_list():
     res = []
     cur = []
@@ -574,6 +584,12 @@ def run(ctx):
     optcases.append(('optinc', 'int q;\n', ['-include', '/nonexistent.h']))
     optcases.append(('optinc2', 'int q;\n', ['-include', 'stddef.h', '-include', 'stddef.h']))
 
+    # system headers: real-world declarations (attributes, inline functions, bit-fields, unions, variadics, redeclared builtins)
+    syscases = []
+    for h in SYSHEADERS:
+        for fm in ('', '#define _GNU_SOURCE\n', '#define _POSIX_C_SOURCE 200809L\n', '#define _DEFAULT_SOURCE\n#define _FILE_OFFSET_BITS 64\n'):
+            syscases.append(('sys:%s' % h, '%s#include <%s>\nint main(void) { return 0; }\n' % (fm, h), []))
+
     # shards: (items, nmut)
     shards = []
     sid = 0
@@ -593,6 +609,8 @@ def run(ctx):
         shards.append((sid, ctx.seed, cc, plain, work, nest[k:k + 6], ctx.scale(3, 30))); sid += 1
     for k in range(0, len(optcases), 20):
         shards.append((sid, ctx.seed, cc, plain, work, optcases[k:k + 20], ctx.scale(1, 10))); sid += 1
+    for k in range(0, len(syscases), 8):
+        shards.append((sid, ctx.seed, cc, plain, work, syscases[k:k + 8], ctx.scale(1, 12))); sid += 1
     rng.shuffle(shards)
     results = core.pmap(shard, shards)
     sites = set()
